@@ -556,8 +556,8 @@ package mux
 
 // ---------------------------------------------------------------- group.go (C13, C16, C07)
 
-//@ pred groupOK(g *Group) = g != nil && g.call != nil &&
-//@      (forall k int :: 0 <= k && k < len(g.routers) ==> g.routers[k] != nil && routerOK(g.routers[k]) && g.routers[k].matcher != nil)
+//@ pred groupOK(g *Group) = g != nil && g.call != nil && len(g.matchers) == len(g.routers) &&
+//@      (forall k int :: 0 <= k && k < len(g.routers) ==> g.routers[k] != nil && routerOK(g.routers[k]) && g.matchers[k] != nil)
 //@ pred noParams(c *types.Context) = len(c.params) == 0 && (forall x string :: !in(x, c.params))
 //
 //@ fn Group.ServeHTTP$1
@@ -573,7 +573,7 @@ package mux
 //@   exceptional
 //@   requires groupOK(g) && allSafe() && r != nil && r.URL != nil && r.Header != nil && w != nil && hdrOf(w) != r.Header
 //@   callsonly [C07,C13] types.NewContext, types.Context.Destroy, mux.Matcher.Match, mux.Router.serveContext, types.Context.Reset, mux.Group.ServeHTTP$1, mux.CallFunc
-//@   atcall mux.Matcher.Match [C13] as-received: arg0 == g.routers[rangeindex + 1].matcher && arg1 == r && arg2 == callresult("types.NewContext", 1, 0) &&
+//@   atcall mux.Matcher.Match [C13] as-received: arg0 == g.matchers[rangeindex + 1] && arg1 == r && arg2 == callresult("types.NewContext", 1, 0) &&
 //@        r.URL.Path == old(r.URL.Path) && noParams(arg2)
 //@   atcall mux.Router.serveContext [C13] first-accepting: arg0 == g.routers[rangeindex + 1] && arg1 == w && arg2 == r && arg3 == callresult("types.NewContext", 1, 0)
 //@   atcall mux.CallFunc [C13] not-found: arg0 == g.call && arg1 == w && arg2 == r && arg3 == box(callresult("types.NewContext", 1, 0)) && arg4 == g.notFound &&
@@ -623,10 +623,10 @@ package mux
 //@   ensures [C09] appended-after: extends(r.ms, m, old(len(r.ms))) && (forall k int :: 0 <= k && k < old(len(r.ms)) ==> r.ms[k] == old(r.ms[k]))
 //
 //@ fn Group.Remove
-//@   requires g != nil
-//@   callsonly [C13] slices.DeleteFunc
-//@   atcall slices.DeleteFunc [C13] order-preserving: arg0 == g.routers
-//@   ensures [C13] result-kept: g.routers == callresult("slices.DeleteFunc", 1, 0)
+//@   requires g != nil && len(g.matchers) == len(g.routers)
+//@   callsonly [C13] slices.IndexFunc, slices.Delete
+//@   atcall slices.Delete [C13] same-position: callresult("slices.IndexFunc", 1, 0) >= 0 && arg1 == callresult("slices.IndexFunc", 1, 0) && arg2 == arg1 + 1
+//@   ensures [C13] pairs-kept: len(g.matchers) == len(g.routers)
 //
 //@ fn Group.Add
 //@   maypanic
@@ -635,8 +635,10 @@ package mux
 //@   atcall mux.Router.Use [C09,C13] inherits-group-middleware: arg0 == r && arg1 == g.ms
 //@   ensures [C13] added-last: len(g.routers) == old(len(g.routers)) + 1 && g.routers[old(len(g.routers))] == r &&
 //@        (forall k int :: 0 <= k && k < old(len(g.routers)) ==> g.routers[k] == old(g.routers[k]))
-//@   ensures [C13] matcher: r.matcher != nil && (matcher != nil ==> r.matcher == matcher)
-//@   ensures [C13] nil-means-any: matcher == nil ==> typeis(r.matcher, "MatcherFunc") && unbox(r.matcher, "MatcherFunc") == funcval("mux.anyRouter")
+//@   ensures [C13] matcher: len(g.matchers) == old(len(g.matchers)) + 1 && g.matchers[old(len(g.matchers))] != nil && (matcher != nil ==> g.matchers[old(len(g.matchers))] == matcher) &&
+//@        (forall k int :: 0 <= k && k < old(len(g.matchers)) ==> g.matchers[k] == old(g.matchers[k]))
+//@   ensures [C13] nil-means-any: matcher == nil ==> typeis(g.matchers[old(len(g.matchers))], "MatcherFunc") && unbox(g.matchers[old(len(g.matchers))], "MatcherFunc") == funcval("mux.anyRouter")
+//@   ensures [C13,C07] router-untouched: r.tree == old(r.tree) && r.call == old(r.call)
 //
 //@ fn Group.New
 //@   maypanic
